@@ -458,7 +458,11 @@ fn finish(plan: &Plan, tier: Tier, seed: i64, mut m: Merged, t0: Instant) -> i32
         let p = f["viol"]["property"].as_str().unwrap_or("");
         let sig = f["viol"]["sig"].as_str().unwrap_or("");
         if p == "MACHINERY" {
-            m.machinery.push(f["viol"]["detail"].as_str().unwrap_or("").to_string());
+            let path = format!("{}/replays/MACHINERY-{}.json", verif_dir(), m.machinery.len());
+            let r = json!({"property": "MACHINERY", "world": f["world"], "family": f["family"], "profile": f["profile"], "handler_order": f["handler_order"],
+                           "armed": f["armed"], "program": f["prog"], "history": f["history"], "sig": sig, "detail": f["viol"]["detail"]});
+            let _ = std::fs::write(&path, serde_json::to_string_pretty(&r).unwrap());
+            m.machinery.push(format!("{} (history in {path})", f["viol"]["detail"].as_str().unwrap_or("")));
             continue;
         }
         if p != property {
